@@ -146,3 +146,135 @@ Example dotdot_after_link : chain fs_dotdot [1] /\ kernel_resolution fs_dotdot t
   /\ presented fs_dotdot [1] false [Name 4; Up; Name 5] = [1; 5]
   /\ kernel_resolution fs_dotdot true [1] false [Name 4; Name 5] = KOk [1; 2; 5].
 Proof. split; [unfold chain; simpl; tauto|]. split; [reflexivity|]. split; reflexivity. Qed.
+
+(** ** /proc/self and /proc/thread-self: the code substitutes the tracee's entries *)
+Section Magic.
+Variable fs : forest.
+Variable special : list nat -> option (list nat).
+
+(** what makes a replacement right: the entry is a link in the tracee's view, and the kernel walking its target
+    arrives, without meeting further links, in the directory the code substitutes *)
+Definition spec_ok : Prop :=
+  forall c c', special c = Some c' ->
+    exists a t, fs c = Some (Link a t) /\ chain fs c' /\
+                forall f r, kwalk fs f (if a then [] else parent c) (t ++ r) = kwalk fs f c' r.
+
+Hypothesis Hs : spec_ok.
+
+Lemma parent_snoc (c : list nat) n : parent (c ++ [n]) = c.
+Proof. unfold parent. apply removelast_last. Qed.
+
+Lemma special_not_dir c c' : special c = Some c' -> fs c <> Some Dir.
+Proof. intros H. destruct (Hs c c' H) as [a [t [E _]]]. congruence. Qed.
+
+Lemma cwalk_m_prefix : forall c pre rem, dir_chain fs pre c -> cwalk_m fs special pre (names c ++ rem) = cwalk_m fs special (pre ++ c) rem.
+Proof.
+  induction c as [|n r IH]; intros pre rem Hc; simpl in *.
+  - rewrite app_nil_r. reflexivity.
+  - destruct Hc as [Hn Hr]. destruct (special (pre ++ [n])) as [c'|] eqn:Es; [exfalso; exact (special_not_dir _ _ Es Hn)|].
+    rewrite Hn. fold (names r). rewrite IH by exact Hr. rewrite <- app_assoc. reflexivity.
+Qed.
+
+(** the code from a directory [cur] with [n'] rounds left *)
+Definition run_code (n' : nat) (cur : list nat) (rem : path) : list nat :=
+  match n' with
+  | 0 => clean cur rem
+  | S m => match cwalk_m fs special cur rem with CDone c => c | CHit p => cres_m m fs special p end
+  end.
+
+Lemma cres_run n' cur rem : chain fs cur -> cres_m n' fs special (names cur ++ rem) = run_code n' cur rem.
+Proof.
+  intros Hc. destruct n' as [|m]; simpl.
+  - rewrite clean_prefix. reflexivity.
+  - rewrite (cwalk_m_prefix cur [] rem Hc). reflexivity.
+Qed.
+
+Lemma kres_unfold n f cur rem : kres n fs f cur rem =
+  match kwalk fs f cur rem with
+  | Done c => KOk c | Fail => KErr
+  | Hit c a t r => match n with 0 => KLoop | S l => kres l fs f (if a then [] else c) (t ++ r) end
+  end.
+Proof. destruct n; reflexivity. Qed.
+
+Theorem resolve_sound_m : forall n rem cur c n', chain fs cur -> n <= n' ->
+  kres n fs true cur rem = KOk c -> run_code n' cur rem = c.
+Proof.
+  induction n as [n IHn] using lt_wf_ind.
+  induction rem as [|x r IHr]; intros cur c n' Hc Hle H.
+  - rewrite kres_unfold in H. simpl in H. injection H as <-. destruct n'; reflexivity.
+  - destruct x as [| |m].
+    + (* .. *)
+      assert (kres n fs true (parent cur) r = KOk c) as H' by (rewrite kres_unfold in *; exact H).
+      pose proof (IHr (parent cur) c n' (chain_parent fs cur Hc) Hle H') as R. destruct n'; exact R.
+    + assert (kres n fs true cur r = KOk c) as H' by (rewrite kres_unfold in *; exact H).
+      pose proof (IHr cur c n' Hc Hle H') as R. destruct n'; exact R.
+    + destruct (special (cur ++ [m])) as [c'|] eqn:Es.
+      * (* /proc/self: a link for the kernel, a substitution for the code *)
+        destruct (Hs _ _ Es) as [a [t [Ef [Hc' Hk]]]].
+        rewrite kres_unfold in H. simpl in H. rewrite Ef in H.
+        assert (exists l, n = S l /\ kres l fs true (if a then [] else cur) (t ++ r) = KOk c) as [l [-> Hl]].
+        { destruct r; destruct n; try discriminate; eauto. }
+        rewrite kres_unfold in Hl. specialize (Hk true r). rewrite parent_snoc in Hk. rewrite Hk in Hl. rewrite <- kres_unfold in Hl.
+        destruct n' as [|m']; [lia|].
+        assert (run_code (S m') cur (Name m :: r) = run_code (S m') c' r) as -> by (simpl; rewrite Es; reflexivity).
+        apply (IHn l ltac:(lia) r c' c (S m') Hc' ltac:(lia) Hl).
+      * rewrite kres_unfold in H. simpl in H.
+        destruct (fs (cur ++ [m])) as [[| |a t]|] eqn:Ef.
+        -- (* directory *)
+           assert (kres n fs true (cur ++ [m]) r = KOk c) as H' by (rewrite kres_unfold; exact H).
+           pose proof (IHr (cur ++ [m]) c n' (chain_snoc fs cur m Hc Ef) Hle H') as R.
+           destruct n'; simpl in *; [exact R|rewrite Es, Ef; exact R].
+        -- (* file *)
+           destruct r; [|discriminate]. injection H as <-. destruct n'; simpl; [reflexivity|rewrite Es, Ef; reflexivity].
+        -- (* link *)
+           assert (exists l, n = S l /\ kres l fs true (if a then [] else cur) (t ++ r) = KOk c) as [l [-> Hl]].
+           { destruct r; destruct n; try discriminate; eauto. }
+           destruct n' as [|m']; [lia|]. simpl. rewrite Es, Ef.
+           assert (chain fs (if a then [] else cur)) as Hcb by (destruct a; [exact I|exact Hc]).
+           pose proof (IHn l ltac:(lia) (t ++ r) (if a then [] else cur) c m' Hcb ltac:(lia) Hl) as R.
+           rewrite <- (cres_run m' _ _ Hcb) in R. destruct a; simpl in *; [exact R|rewrite <- app_assoc; exact R].
+        -- (* missing *)
+           destruct r; [|discriminate]. injection H as <-. destruct n'; simpl; [reflexivity|rewrite Es, Ef; reflexivity].
+Qed.
+
+Theorem presented_sound_m base is_abs p c : chain fs base ->
+  kernel_resolution fs true base is_abs p = KOk c -> presented_m fs special base is_abs p = c.
+Proof.
+  unfold kernel_resolution, presented_m. intros Hc H. destruct is_abs.
+  - pose proof (cres_run 40 [] p I) as E. simpl app in E. rewrite E. apply (resolve_sound_m 40 p [] c 40 I (le_n _)). destruct p; exact H.
+  - rewrite (cres_run 40 base p Hc). apply (resolve_sound_m 40 p base c 40 Hc (le_n _)). destruct p; [discriminate|exact H].
+Qed.
+End Magic.
+
+(** a replacement is right whenever the entry is a relative link made of plain names that lead through directories *)
+Lemma spec_ok_names fs (special : list nat -> option (list nat)) :
+  (forall c c', special c = Some c' -> exists d, fs c = Some (Link false (names d)) /\ c' = parent c ++ d /\ chain fs (parent c) /\ dir_chain fs (parent c) d) ->
+  spec_ok fs special.
+Proof.
+  intros H c c' Hs. destruct (H c c' Hs) as [d [Ef [-> [Hp Hd]]]]. exists false, (names d). split; [exact Ef|]. split.
+  - (* chain of parent ++ d *)
+    unfold chain in *. clear Ef Hs H. revert Hp Hd. generalize (parent c). intros b Hb Hd.
+    assert (forall pre x, dir_chain fs pre x -> forall y, dir_chain fs (pre ++ x) y -> dir_chain fs pre (x ++ y)) as G.
+    { intros pre x. revert pre. induction x as [|n r IH]; intros pre Hx y Hy; simpl in *; [rewrite app_nil_r in Hy; exact Hy|].
+      destruct Hx as [Hn Hr]. split; [exact Hn|]. apply IH; [exact Hr|]. rewrite <- app_assoc. exact Hy. }
+    apply (G [] b Hb d). exact Hd.
+  - intros f r. apply kwalk_prefix. exact Hd.
+Qed.
+
+Lemma lnat_eqb_true : forall a b, lnat_eqb a b = true -> a = b.
+Proof.
+  induction a as [|x a IH]; destruct b as [|y b]; simpl; intros H; try discriminate; [reflexivity|].
+  apply andb_true_iff in H. destruct H as [H1 H2]. apply Nat.eqb_eq in H1. apply IH in H2. congruence.
+Qed.
+
+Theorem proc_special_ok fs pr self tself pid task :
+  fs [pr] = Some Dir -> fs [pr; pid] = Some Dir -> fs [pr; pid; task] = Some Dir -> fs [pr; pid; task; pid] = Some Dir ->
+  fs [pr; self] = Some (Link false [Name pid]) -> fs [pr; tself] = Some (Link false [Name pid; Name task; Name pid]) ->
+  spec_ok fs (proc_special pr self tself pid task).
+Proof.
+  intros H1 H2 H3 H4 H5 H6. apply spec_ok_names. intros c c' Hs. unfold proc_special in Hs.
+  destruct (lnat_eqb c [pr; self]) eqn:E1.
+  - apply lnat_eqb_true in E1. subst c. injection Hs as <-. exists [pid]. simpl. repeat split; auto.
+  - destruct (lnat_eqb c [pr; tself]) eqn:E2; [|discriminate].
+    apply lnat_eqb_true in E2. subst c. injection Hs as <-. exists [pid; task; pid]. simpl. repeat split; auto.
+Qed.
